@@ -791,4 +791,48 @@ theorem decPath_ok {pt : Nat} {pb : Bytes} {p : PathV} (h : decPath pt pb = .ok 
           · cases h
         · cases h
 
+/-! ### lists of info / hop fields (`scion.Decoded`) -/
+
+theorem decInfos_encInfos (is : List Info) (rest : Bytes) (hw : ∀ i ∈ is, i.WF) :
+    decInfos is.length (encInfos is ++ rest) = some (is, rest) := by
+  induction is with
+  | nil => simp [encInfos, decInfos]
+  | cons i is ih =>
+    have hi := hw i (by simp)
+    have his : ∀ j ∈ is, j.WF := fun j hj => hw j (by simp [hj])
+    show decInfos (is.length + 1) (encInfo i ++ (encInfos is) ++ rest) = _
+    rw [List.append_assoc]
+    simp only [decInfos]
+    rw [takeN_append' 8 _ _ (length_encInfo i)]
+    simp only
+    rw [decInfo_encInfo i hi, ih his]
+
+theorem decHops_encHops (hs : List Hop) (rest : Bytes) (hw : ∀ h ∈ hs, h.WF) :
+    decHops hs.length (encHops hs ++ rest) = some (hs, rest) := by
+  induction hs with
+  | nil => simp [encHops, decHops]
+  | cons h hs ih =>
+    have hh := hw h (by simp)
+    have hhs : ∀ j ∈ hs, j.WF := fun j hj => hw j (by simp [hj])
+    show decHops (hs.length + 1) (encHop h ++ (encHops hs) ++ rest) = _
+    rw [List.append_assoc]
+    simp only [decHops]
+    rw [takeN_append' 12 _ _ (length_encHop h)]
+    simp only
+    rw [decHop_encHop h hh, ih hhs]
+
+theorem length_encInfos (is : List Info) : (encInfos is).length = is.length * 8 := by
+  induction is with
+  | nil => rfl
+  | cons i is ih =>
+    show (encInfo i ++ encInfos is).length = _
+    simp [length_encInfo, ih]; omega
+
+theorem length_encHops (hs : List Hop) : (encHops hs).length = hs.length * 12 := by
+  induction hs with
+  | nil => rfl
+  | cons h hs ih =>
+    show (encHop h ++ encHops hs).length = _
+    simp [length_encHop, ih]; omega
+
 end Scion.Wire
